@@ -40,7 +40,8 @@ def big_ints(x):
 
 
 def strip_tags(x):
-    return " ".join(p for p in x.split(" ") if not p.startswith("tags="))
+    # field by field (fields are tab separated): the last word of a field may be followed by a tab, not a space
+    return "\t".join(" ".join(p for p in part.split(" ") if not p.startswith("tags=")) for part in x.split("\t"))
 
 
 def first_diff(a, b):
